@@ -18,11 +18,21 @@ theorem body_decodable (s : List Char) : (decodeStrict (xmlDecl ++ encode s)).is
   rw [this]
   rfl
 
+/-- the CIM-XML extension headers never contain an Authorization field (their names are fixed) -/
+theorem noAuth_headers (req : Req) : noAuth req.headers := by
+  have h1 : hCIMOperation ≠ authName := by decide
+  have h2 : hCIMMethod ≠ authName := by decide
+  have h3 : hCIMObject ≠ authName := by decide
+  have h4 : hCIMExport ≠ authName := by decide
+  have h5 : hCIMExportMethod ≠ authName := by decide
+  intro h hh
+  simp only [Req.headers] at hh
+  split at hh <;> simp at hh <;> rcases hh with rfl | rfl | rfl <;> assumption
+
 /-- what may be assumed about the observer-independent part of an operation -/
 structure Sane (call : Call) (core : Core) : Prop where
   noKw : kwCollision call = false
   argsOk : argsRecordable call.kwargs = true
-  noAuthHdr : ∀ req, core.prep = .ok req → noAuth req.headers
   retOk : ∀ b r, core.parse b = .ok r → r.val.recordable = true ∧ retViewOk r.view = true
 
 def srvOk : SrvTime → Prop
@@ -102,7 +112,7 @@ def coreOutcome (creds : Creds) (b64 : Str → Str) (core : Core) (listener : Bo
     | .ok p => core.parse p.1
 
 theorem tryBody_spec (c : Conn) (b64 : Str → Str) (core : Core) (call : Call) (listener : Bool)
-    (hs : Sane call core) (hrec : ∀ r ∈ c.recorders, RecOk r) :
+    (_hs : Sane call core) (hrec : ∀ r ∈ c.recorders, RecOk r) :
     (tryBody .fixed c b64 core listener).outcome = coreOutcome c.info.creds b64 core listener ∧
     (tryBody .fixed c b64 core listener).conn.stats = c.stats ∧
     (∀ r ∈ (tryBody .fixed c b64 core listener).conn.recorders, RecOk r) ∧
@@ -112,7 +122,7 @@ theorem tryBody_spec (c : Conn) (b64 : Str → Str) (core : Core) (call : Call) 
   cases hp : core.prep with
   | error e => simp [tryBody, coreOutcome, hp]; exact hrec
   | ok req =>
-    have hn := hs.noAuthHdr req hp
+    have hn := noAuth_headers req
     have hw := wbemRequest_spec c.recorders c.info.creds b64 core req listener hrec hn
     obtain ⟨hres, _, hq, hl, hsrv⟩ := hw
     simp only [tryBody, coreOutcome, hp]
@@ -380,7 +390,7 @@ theorem wbemRequest_bare (creds : Creds) (b64 : Str → Str) (core : Core) (req 
 
 /-- what the try body leaves in the connection attributes once the request was built -/
 theorem tryBody_bookkeeping (c : Conn) (b64 : Str → Str) (core : Core) (call : Call) (listener : Bool)
-    (hs : Sane call core) (hrec : ∀ r ∈ c.recorders, RecOk r) (req : Req) (hp : core.prep = .ok req) :
+    (_hs : Sane call core) (hrec : ∀ r ∈ c.recorders, RecOk r) (req : Req) (hp : core.prep = .ok req) :
     (tryBody .fixed c b64 core listener).conn.lastRawRequest = some req.data ∧
     (tryBody .fixed c b64 core listener).conn.lastRequestLen = req.data.length ∧
     (tryBody .fixed c b64 core listener).sent = some (xmlDecl ++ encode req.data) ∧
@@ -389,7 +399,7 @@ theorem tryBody_bookkeeping (c : Conn) (b64 : Str → Str) (core : Core) (call :
                 (tryBody .fixed c b64 core listener).conn.lastReplyLen = p.1.length
      | .error _ => (tryBody .fixed c b64 core listener).conn.lastRawReply = none ∧
                    (tryBody .fixed c b64 core listener).conn.lastReplyLen = 0) := by
-  have hn := hs.noAuthHdr req hp
+  have hn := noAuth_headers req
   obtain ⟨hres, hsent, _, _, _⟩ := wbemRequest_spec c.recorders c.info.creds b64 core req listener hrec hn
   have hb := (wbemRequest_bare c.info.creds b64 core req listener).1
   simp only [tryBody, hp]
@@ -779,11 +789,54 @@ theorem runOp_silent (v : Variant) (c : Conn) (b64 : Str → Str) (call : Call) 
       call.listener hq1
     exact finallyPart_silent v call _ hev hq
 
+/-! ### bookkeeping over histories, new connections -/
+
+def bookOf (c : Conn) : Option Str × Option Bytes × Nat := (c.lastRawRequest, c.lastRawReply, c.lastReplyLen)
+
+theorem tryBody_prep_error (v : Variant) (c : Conn) (b64 : Str → Str) (core : Core) (l : Bool) (e : Raised)
+    (h : core.prep = .error e) : (tryBody v c b64 core l).conn = c := by
+  simp [tryBody, h]
+
+/-- one operation moves the bookkeeping triple by `bookStep` -/
+theorem runOp_book (c : Conn) (b64 : Str → Str) (call : Call) (core : Core) (hs : Sane call core)
+    (hsrv : srvOk c.lastSrvTime) :
+    bookOf (runOp .fixed c b64 call core).conn = bookStep c.info.creds b64 (bookOf c) (call, core) := by
+  obtain ⟨recs1, hrec1, h1, h2, h3, _⟩ := runOp_decompose c b64 call core hs hsrv
+  simp only [bookOf, bookStep]
+  rw [h1, h2, h3]
+  cases hp : core.prep with
+  | error e =>
+    rw [tryBody_prep_error .fixed _ b64 core call.listener e hp]
+  | ok req =>
+    have hcr : ({ c with recorders := recs1, stats := c.stats.startTimer call.method } : Conn).info.creds = c.info.creds := rfl
+    have hr1 : ∀ r ∈ ({ c with recorders := recs1, stats := c.stats.startTimer call.method } : Conn).recorders, RecOk r := hrec1
+    generalize ({ c with recorders := recs1, stats := c.stats.startTimer call.method } : Conn) = c1 at *
+    obtain ⟨b1, _, _, b4⟩ := tryBody_bookkeeping c1 b64 core call call.listener hs hr1 req hp
+    rw [hcr] at b4
+    cases hr : (wbemRequest .fixed [] c.info.creds b64 core req call.listener).result with
+    | error e => rw [hr] at b4; simp only at b4; simp only [hr]; rw [b1, b4.1, b4.2]
+    | ok q => rw [hr] at b4; simp only at b4; simp only [hr]; rw [b1, b4.1, b4.2]
+
+theorem addRecorder_fields (c : Conn) (r : Recorder) :
+    (c.addRecorder r).1.lastSrvTime = c.lastSrvTime ∧ (c.addRecorder r).1.info = c.info ∧
+    (c.addRecorder r).1.stats = c.stats ∧ bookOf (c.addRecorder r).1 = bookOf c := by
+  cases r <;> exact ⟨rfl, rfl, rfl, rfl⟩
+
+theorem addRecorders_fields : ∀ (rs : List Recorder) (c : Conn),
+    (c.addRecorders rs).lastSrvTime = c.lastSrvTime ∧ (c.addRecorders rs).info = c.info ∧
+    (c.addRecorders rs).stats = c.stats ∧ bookOf (c.addRecorders rs) = bookOf c
+  | [], _ => ⟨rfl, rfl, rfl, rfl⟩
+  | r :: rs, c => by
+    obtain ⟨a1, a2, a3, a4⟩ := addRecorder_fields c r
+    obtain ⟨b1, b2, b3, b4⟩ := addRecorders_fields rs (c.addRecorder r).1
+    simp only [Conn.addRecorders]
+    exact ⟨b1.trans a1, b2.trans a2, b3.trans a3, b4.trans a4⟩
+
 /-! ### inputs of the negation witnesses in Props/C19.lean -/
 
 /-- a core that succeeds: request built, HTTP 200, reply parsed to `ret` -/
 def okCore (ret : PyVal) : Core :=
-  { prep := .ok ⟨['<', 'C', 'I', 'M', '/', '>'], []⟩,
+  { prep := .ok { data := ['<', 'C', 'I', 'M', '/', '>'] },
     send := fun _ _ => .response { status := 200, body := [60, 62] },
     parseFloat := fun _ => none,
     statusError := fun _ => ⟨.named "HTTPError", []⟩,
